@@ -57,6 +57,10 @@ pub struct ReqCfg {
     /// this script entry is a Cancel message for `id` instead of a request
     #[serde(default)]
     pub cancel: bool,
+    /// the peer sends this entry no earlier than this many ms after the start of the run (the
+    /// clock is advanced there first, as part of the canonical schedule)
+    #[serde(default)]
+    pub at_ms: Option<i64>,
 }
 
 impl ReqCfg {
@@ -67,6 +71,7 @@ impl ReqCfg {
             finish,
             hk: HKind::Run,
             cancel: false,
+            at_ms: None,
         }
     }
     pub fn cancel_of(id: u64) -> Self {
@@ -567,7 +572,10 @@ impl World {
             && st.delivered < self.cfg.reqs.len()
             && (self.cfg.reqs[st.delivered].cancel || self.reuse_ok(&st, self.cfg.reqs[st.delivered].id))
         {
-            m.push(Ev::Deliver(st.delivered));
+            match self.cfg.reqs[st.delivered].at_ms {
+                Some(t) if t > self.now_ms() => m.push(Ev::Advance(t)),
+                _ => m.push(Ev::Deliver(st.delivered)),
+            }
         }
         let started: Vec<u32> = st.started_payloads.clone();
         let mut unfinished_opt = Vec::new();
